@@ -170,8 +170,13 @@ def run(ctx):
         if True:
             ghi = synth_hourly(days=365).assign(ghi=lambda d: np.maximum(0, 500 * np.sin((np.arange(len(d)) % 24 - 6) / 12 * np.pi)))
             hm2 = HourlyModel().fit(HourlyBaselineData(ghi, is_electricity_data=True), ignore_disqualification=True)
-            roundtrip("hourly_solar", hm2, HourlyModel, {"inside": HourlyReportingData(ghi.iloc[:24 * 30], is_electricity_data=True)}, res, sigs,
-                      ignore_disqualification=True)
+            # also the BASELINE period itself, once as fitted and once with another irradiance source (same stamps and temperatures):
+            # whatever the fitted object remembers about its baseline must not stand in for the features of the data it is given
+            other = ghi.assign(ghi=lambda d: d.ghi * 0.6 + 25.0 * (d.ghi > 0))
+            roundtrip("hourly_solar", hm2, HourlyModel, {"inside": HourlyReportingData(ghi.iloc[:24 * 30], is_electricity_data=True),
+                                                         "baseline_period": HourlyReportingData(ghi, is_electricity_data=True),
+                                                         "baseline_period_other_irradiance": HourlyReportingData(other, is_electricity_data=True)},
+                      res, sigs, ignore_disqualification=True)
     except Exception as e:  # noqa
         res["oracle_failures"].append(dict(clause="hourly_family_unavailable", error=f"{type(e).__name__}: {str(e)[:120]}"))
     try:
